@@ -117,11 +117,13 @@ def wire_step(found, idx, prop, wire, op, o, res):
     processed is a violation (a refresh that never reaches the cache); one it processes although the guard could have dropped it is
     C16's business, not this property's -- the reference follows the implementation there.  Returns: treat as processed?"""
     now, recs = op[1], op[2]
-    expected = wire.expects(now, recs)
+    sec = CC.op_opts(op).get("sec")
+    expected = wire.expects(now, recs, sec)
     handed = o.get("handed") or []
     if res is not None:
         gap = "-" if wire.t is None else CC.gap_class(now - wire.t)
-        same = wire.data is not None and wire.data == CC.payload_of(recs)
+        same = wire.data is not None and wire.data == CC.payload_of(recs, sec)
+        res.count("wire:source:%s" % ("ipv6-4tuple" if CC.op_opts(op).get("src6") else "ipv4-2tuple"))
         res.count("wire:%s" % ("processed" if expected else "suppressed"))
         res.nontriv("W/%s/%s/%s" % ("same" if same else "other", gap, "p" if expected else "s"))
     if len(handed) > 1:
@@ -131,11 +133,11 @@ def wire_step(found, idx, prop, wire, op, o, res):
                       "the datagram at %d was not handed to the record manager although %s: its records are not refreshed" % (
                           now, "no datagram was processed before" if wire.t is None else
                           ("the last processed datagram (at %d, %d ms earlier) %s" % (wire.t, now - wire.t, "has the same bytes but lies 1 s or more back"
-                                                                                       if wire.data == CC.payload_of(recs) else "has other bytes")))))
+                                                                                       if wire.data == CC.payload_of(recs, sec) else "has other bytes")))))
     if handed and handed[0] != now:
         found.append((idx, "%s:listener:arrival-time" % prop, "the datagram arrived at %d but the message handed to the record manager says now=%r" % (now, handed[0])))
     if expected or handed:
-        wire.processed(now, recs)
+        wire.processed(now, recs, sec)
         return True
     return False
 
@@ -211,7 +213,7 @@ def run(ctx):
     tier, seed = ctx["tier"], ctx["seed"]
     wide = 4 if ctx.get("widened") else 1
     n_random = C.Budget(tier, 700, 5200).n * wide
-    deadline = t0 + (420 if tier == "thorough" else 50) * (2.0 if wide > 1 else 1)
+    deadline = t0 + (420 if tier == "thorough" else 70) * (1.5 if wide > 1 else 1)
     run_ = CC.Runner(res, "C05", ctx, oracle)
 
     # 1. corpus
@@ -279,6 +281,9 @@ def run(ctx):
                 % ("/".join(str(p[2]) for p in plans), n_exh, "complete" if complete else "cut short", done, len(CC.VOCAB), CC.TTLS))
     res.rule = res.rule.replace("@NWIRE@", str(n_wire))
     res.sample({"history": run_.histories, "example_ops": [["D", CC.T0, [CC.inst(_T1, 1, 0), CC.inst(_T1, 1, 0)], []], ["D", CC.T0 + 999, [CC.inst(_T1, 1, 0)], []], ["X", CC.T0 + 1000]]})
+    if any("cut short" in n or "stopped after" in n for n in res.notes):
+        # a stream was cut by the wall-clock budget (a loaded machine): the run is not the complete plan; the note says which stream
+        res.exhaustive = False
     res.count("wall_s", int(time.time() - t0))
     return res
 
